@@ -41,6 +41,12 @@
 (*   "vote_tally_survives_retry"     _start_election adds self to the tally   *)
 (*        instead of resetting it (cleared only by _step_down): a candidate   *)
 (*        that retries keeps the votes of its previous term                   *)
+(*   "ae_replaces_suffix"            _handle_append_entries truncates from    *)
+(*        prev_log_index+1 and appends all entries instead of reconciling     *)
+(*        entry by entry: a reordered older request cuts the log back         *)
+(*   "vote_prefers_longer_log"       the up-to-date test compares             *)
+(*        (last_log_index, last_log_term) lexicographically: the longer log   *)
+(*        wins, the last term only breaks ties                                *)
 EXTENDS Naturals, Sequences, FiniteSets, TLC
 
 CONSTANTS Nodes,  \* node ids: 1..N for traces and replayed behaviours, model values under SYMMETRY
@@ -118,8 +124,11 @@ OnHeartbeat(s, self) ==
 \* _handle_request_vote
 OnRV(s, self, m) ==
     LET s1 == IF m.term > s.term THEN StepDown(s, m.term) ELSE s
-        utd == \/ m.llt > LastTerm(s1.log)
-               \/ m.llt = LastTerm(s1.log) /\ m.lli >= Len(s1.log)
+        utd == IF Has("vote_prefers_longer_log")
+               THEN \/ m.lli > Len(s1.log)
+                    \/ m.lli = Len(s1.log) /\ m.llt >= LastTerm(s1.log)
+               ELSE \/ m.llt > LastTerm(s1.log)
+                    \/ m.llt = LastTerm(s1.log) /\ m.lli >= Len(s1.log)
         grant == m.term >= s1.term /\ (s1.voted = Nil \/ s1.voted = m.src) /\ utd
         s2 == IF grant THEN [s1 EXCEPT !.voted = m.src, !.term = m.term, !.et = 1] ELSE s1
     IN R(s2, <<[type |-> "RVR", src |-> self, dst |-> m.src, term |-> s2.term, granted |-> grant]>>, <<>>)
@@ -173,7 +182,11 @@ OnAE(s, self, m) ==
                         !.hb = 0, !.votes = {}, !.ni = Zero, !.mi = Zero, !.et = 1]
     IN IF m.pli > 0 /\ (m.pli > Len(s1.log) \/ s1.log[m.pli].t # m.plt)
        THEN R(s1, <<AERMsg(self, m.src, s1.term, FALSE, 0)>>, <<>>)
-       ELSE LET a == AppendEnts(s1.log, s1.ci, m.ents)
+       ELSE LET a == IF Has("ae_replaces_suffix") /\ m.ents # <<>>
+                     THEN AppendEnts(SubSeq(s1.log, 1, Min2(m.pli, Len(s1.log))),
+                                     IF m.pli + 1 <= Len(s1.log) /\ s1.ci >= m.pli + 1 THEN m.pli ELSE s1.ci,
+                                     [k \in 1..Len(m.ents) |-> [i |-> m.pli + k, t |-> m.ents[k].t, c |-> m.ents[k].c]])
+                     ELSE AppendEnts(s1.log, s1.ci, m.ents)
                 s2 == [s1 EXCEPT !.log = a.log, !.ci = a.ci]
                 c == IF m.lc > s2.ci THEN Commit(s2, Min2(m.lc, Len(s2.log))) ELSE R(s2, <<>>, <<>>)
                 mi == IF Has("match_is_follower_last_index") THEN Len(c.s.log)
